@@ -16,8 +16,8 @@ RULE = ("case = 1-3 generated code files (1-5 records each: gaps, adjacency, ove
         "class vector, clip pattern, granularity, #files)")
 ASSUMPTIONS = [
     "records selected in one run have one granularity (the manual does not define mixed granularity)",
-    "lane modes (-m other than ALL) are only generated with windows aligned to the lane divisor; "
-    "unaligned windows are counted as excluded_unaligned and not generated",
+    "lane modes (-m other than ALL): the image holds the bytes of the window whose byte address passes the lane test, "
+    "in address order ('copy all bytes with an even address'), also when the window is no multiple of the lane period",
     "independent code-file writer vf/pfile.py follows doc/file-formats.md",
 ]
 
@@ -232,7 +232,7 @@ def execute(case):
     classes = ["gran%d" % max([r["gran"] for f in case["files"] for r in f["recs"] if r["kind"] == "data"], default=1),
                "files%d" % len(case["files"]), "lane:" + o.get("m", "ALL")]
     if ref["status"] == 0 and not window_aligned(case, ref):
-        return engine.discarded("excluded_unaligned_lane_window", classes)
+        classes.append("unaligned-lane-window")
     with run.Work("c05") as d:
         run.write_files(d, {f["name"] + ".p": pgen.file_bytes(f) for f in case["files"]})
         argv = argv_of(case)
